@@ -14,6 +14,9 @@ Trace == ndJsonDeserialize(IOEnv.VERIF_TRACE)
 VARIABLES l, failed
 vars == <<l, failed>>
 Cl(cond, name) == IF cond THEN {name} ELSE {}
+\* the verdict list is bounded, but per clause set: a flood of one kind of failure (a recorded finding, say) never crowds
+\* out a failure of another kind
+Full(fl, bad) == Len(fl) >= 6000 \/ Cardinality({i \in DOMAIN fl : fl[i].clauses = bad}) >= 400
 
 ToSet(s) == {s[i] : i \in DOMAIN s}
 
@@ -76,6 +79,8 @@ ContainClauses(e) ==
   \cup Cl("afterTruncated" \in DOMAIN e /\ e.afterTruncated, "C14.destinationGrewBeyondAnyExpectation")
   \cup Cl(e.dstRootGone, "C14.destinationRootItselfRemoved") \cup Cl(e.dstRootGone, "C15.destinationRootItselfRemoved")
   \cup Cl(\E i \in DOMAIN e.after : e.after[i].t = "file" /\ e.after[i].c \in ToSet(e.secrets), "C14.bytesFromOutsideSourceRoot")
+  \* ... nor extended attributes of an outside file (hex of "TOP-SECRET-XATTR")
+  \cup Cl("secretXattrSeen" \in DOMAIN e /\ e.secretXattrSeen, "C14.xattrFromOutsideSourceRoot")
 
 \* ---- C16: include / exclude -------------------------------------------------------------------
 FilterCopyClauses(e) ==
@@ -98,11 +103,17 @@ FilterCopyClauses(e) ==
       stale == \E i \in DOMAIN e.before : Has(tree, e.before[i].p)
       unselected == {p \in PathsOf(e.before) : Has(tree, p) /\ At(tree, p).t # "dir" /\ p \notin selNaive /\ p \notin selIncr}
       selectedFiles == {p \in selNaive \cap selIncr : At(tree, p).t = "file"}
+      \* ... and an existing directory at the path of a source directory that neither selection reports (not selected, no
+      \* selected descendant) keeps its mode, owner, xattrs and modification time: nothing is written to it or below it
+      unselectedDirs == {p \in PathsOf(e.before) : Has(tree, p) /\ At(tree, p).t = "dir" /\ p \notin naive /\ p \notin incr}
   IN Cl(~e.ok, "C16.filteredCopyFailed")
      \cup (IF ~e.ok THEN {}
            ELSE IF stale THEN
                 Cl(\E p \in unselected : ~(Has(e.after, p) /\ At(e.after, p).ino = At(e.before, p).ino /\ At(e.after, p).c = At(e.before, p).c
                                             /\ At(e.after, p).t = At(e.before, p).t), "C16.unselectedDestinationEntryTouched")
+                \cup Cl(\E p \in unselectedDirs : ~(Has(e.after, p) /\ LET a == At(e.after, p) b == At(e.before, p) IN
+                                                        a.t = b.t /\ a.perm = b.perm /\ a.uid = b.uid /\ a.gid = b.gid /\ a.x = b.x /\ a.mt = b.mt),
+                        "C16.unselectedDestinationEntryTouched")
                 \cup Cl(\E p \in selectedFiles : ~(Has(e.after, p) /\ At(e.after, p).t = "file" /\ At(e.after, p).c = At(tree, p).c),
                         "C16.selectedFileNotCopied")
            ELSE (IF got = naive THEN {}
@@ -125,7 +136,7 @@ Init == l = 1 /\ failed = <<>>
 Step == /\ l <= Len(Trace)
         /\ LET e == Trace[l]
                bad == Judge(e)
-           IN failed' = IF bad = {} \/ Len(failed) >= 2000 THEN failed
+           IN failed' = IF bad = {} \/ Full(failed, bad) THEN failed
                         ELSE Append(failed, [case |-> e.case, line |-> l, clauses |-> bad, detail |-> Detail(e)])
         /\ l' = l + 1
 Spec == Init /\ [][Step]_vars
